@@ -23,7 +23,7 @@ theorem primsOK_of_rates (P : Params) (h : Nat) (R : Rel DB)
   setConvertedAmount _ _ _ := guarded_keep (·.rates) hkeep (fun _ => rfl)
   setPegConverted _ _ _ _ := guarded_keep (·.rates) hkeep (fun _ => rfl)
   insertRelation _ _ _ _ _ := guarded_keep (·.rates) hkeep (fun s => by split <;> rfl)
-  insertHolding _ _ := guarded_keep (·.rates) hkeep (fun _ => rfl)
+  insertHolding _ _ _ := guarded_keep (·.rates) hkeep (fun _ => rfl)
   insertBank _ := guarded_keep (·.rates) hkeep (fun _ => rfl)
   updateBank _ _ _ := guarded_keep (·.rates) hkeep (fun _ => rfl)
   insertGrade _ _ _ _ _ := guarded_keep (·.rates) hkeep (fun _ => rfl)
@@ -46,7 +46,7 @@ theorem primsOK_of_rels (P : Params) (h : Nat) (R : Rel DB)
   setConvertedAmount _ _ _ := guarded_keep (·.rels) hkeep (fun _ => rfl)
   setPegConverted _ _ _ _ := guarded_keep (·.rels) hkeep (fun _ => rfl)
   insertRelation := hins
-  insertHolding _ _ := guarded_keep (·.rels) hkeep (fun _ => rfl)
+  insertHolding _ _ _ := guarded_keep (·.rels) hkeep (fun _ => rfl)
   insertBank _ := guarded_keep (·.rels) hkeep (fun _ => rfl)
   updateBank _ _ _ := guarded_keep (·.rels) hkeep (fun _ => rfl)
   insertGrade _ _ _ _ _ := guarded_keep (·.rels) hkeep (fun _ => rfl)
@@ -69,7 +69,7 @@ theorem primsOK_of_addrs (P : Params) (h : Nat) (R : Rel DB)
   setConvertedAmount _ _ _ := guarded_keep (·.addrs) hkeep (fun _ => rfl)
   setPegConverted _ _ _ _ := guarded_keep (·.addrs) hkeep (fun _ => rfl)
   insertRelation _ _ _ _ _ := guarded_keep (·.addrs) hkeep (fun s => by split <;> rfl)
-  insertHolding _ _ := guarded_keep (·.addrs) hkeep (fun _ => rfl)
+  insertHolding _ _ _ := guarded_keep (·.addrs) hkeep (fun _ => rfl)
   insertBank _ := guarded_keep (·.addrs) hkeep (fun _ => rfl)
   updateBank _ _ _ := guarded_keep (·.addrs) hkeep (fun _ => rfl)
   insertGrade _ _ _ _ _ := guarded_keep (·.addrs) hkeep (fun _ => rfl)
